@@ -395,6 +395,14 @@ Theorem c20_unknown_option_rejected : forall items out name post, items_effect C
 Proof. exact (unknown_option_rejected CLI GROUP). Qed.
 Print Assumptions c20_unknown_option_rejected.
 
+(* behind `--` every token is a positional word, whatever it looks like (`-- --json` names a minidump called --json) *)
+Theorem c20_after_dashdash_positional : forall items acc ws out,
+  items_effect CLI [] items = Some acc -> words_effect CLI acc ws = Some out ->
+  (group_members_present GROUP out <= 1)%nat -> required_present CLI out = true ->
+  parse CLI GROUP (render items ++ "--"%str :: ws) = PParsed out.
+Proof. exact (after_dashdash_positional CLI GROUP). Qed.
+Print Assumptions c20_after_dashdash_positional.
+
 (* rejections, where they stand (behind any readable prefix, whatever follows - a later --help included): a flag or single-valued
    option the prefix already holds, in either form and with any value; a value the option's value parser refuses, in either form *)
 Theorem c20_repeated_option_rejected : forall items out name a post,
